@@ -92,8 +92,16 @@ type tfile = { tf : int; told : int; tob : bool; tnew : int; tnb : bool; tins : 
 type rstep = { rc : int; rnp : int; rm : bool; rauthor : int; rtick : int; rindex : int; rinst : int;
                rchanges : change list; renames : bool; rrows : row list; badfd : bool }
 
+(* Everything below is linear (or n log n) in the number of replay steps: the long histories of the scale
+   family have 10^4 .. 10^5 steps.  The judgements are the extracted fast functions of LineStats/Fast.v, each
+   proved equal to the specification-level function (C12_fast_replay_ok, C12_fast_once_oracle, C12_fast_listing,
+   C12_fast_runs); on short sequences the slow functions are evaluated as well and must agree. *)
+let small_limit = 40
+type cinfo = { mutable allne : bool; mutable somene : bool; mutable ckeys : (int * int) list; mutable nrep : int }
+
 let pipe id c =
   let cec = bool_of_sx (nth (args (field "cec" c)) 0) in
+  let is_scale = (match field_opt "mode" c with Some m -> atom (nth (args m) 0) = "scale" | None -> false) in
   let obs = field "obs" c in
   match args obs with
   | [o] when tag o = "empty" -> count "pipe_empty"
@@ -102,9 +110,9 @@ let pipe id c =
       mismatch id ("the pipeline run failed: " ^ tag o)
   | _ ->
   count "pipe_cases";
-  (* --- the plan of a separate planner call: informational, the planner is not deterministic across calls *)
-  let plan = args (field "plan" obs) in
-  let plan_commits = List.filter_map (fun a -> if tag a = "c" then Some (iarg a 0, iarg a 1) else None) plan in
+  (match field_opt "hib" c with
+   | Some h when int_of_sx (nth (args h) 0) > 0 -> count "pipe_cases_with_hibernation"
+   | _ -> ());
   (* --- the steps the items saw *)
   let steps = List.map (fun s ->
     let a = args s in
@@ -122,102 +130,152 @@ let pipe id c =
     { rc = int_of_sx (nth a 0); rnp = int_of_sx (nth a 1); rm = bool_of_sx (nth a 2); rauthor = int_of_sx (nth a 3);
       rtick = int_of_sx (nth a 4); rindex = int_of_sx (nth a 5); rinst = int_of_sx (nth a 8); rchanges = changes; renames = !ren;
       rrows = rows_of_obs (field "st" s); badfd = !badfd }) (args (field "steps" obs)) in
+  let nsteps = List.length steps in
+  let small = nsteps <= small_limit in
+  if is_scale then count "scale_cases";
+  if nsteps >= 1000 then count "pipe_cases_1000_steps_or_more";
+  if nsteps >= 10000 then count "pipe_cases_10000_steps_or_more";
+  if nsteps >= 100000 then count "pipe_cases_100000_steps_or_more";
   let msteps = List.map (fun r ->
     { s_commit = n r.rc; s_nparents = n r.rnp; s_ismerge = r.rm; s_author = n r.rauthor; s_tick = n r.rtick; s_changes = r.rchanges }) steps in
   (* the executed replay sequence, observed from inside the run *)
-  let replays = Hashtbl.create 16 in
+  let replays = Hashtbl.create 64 in
   List.iter (fun r -> Hashtbl.replace replays r.rc (1 + try Hashtbl.find replays r.rc with Not_found -> 0)) steps;
   let k_of ci = try Hashtbl.find replays ci with Not_found -> 0 in
   let exec_commits = List.map (fun r -> (r.rc, r.rinst)) steps in
-  if List.map fst exec_commits <> List.map fst plan_commits then count "second_planner_call_orders_commits_differently";
-  (* e.g. two root components of equal size: which one is analysed depends on Go map iteration order *)
-  if List.sort compare (List.map fst exec_commits) <> List.sort compare (List.map fst plan_commits) then
-    count "second_planner_call_replays_other_commits";
+  (* --- the plan of a separate planner call: informational, the planner is not deterministic across calls *)
+  (match args (field "plan" obs) with
+   | [A "skipped"] -> ()
+   | plan ->
+     let plan_commits = List.filter_map (fun a -> if tag a = "c" then Some (iarg a 0, iarg a 1) else None) plan in
+     if List.map fst exec_commits <> List.map fst plan_commits then count "second_planner_call_orders_commits_differently";
+     (* e.g. two root components of equal size: which one is analysed depends on Go map iteration order *)
+     if List.sort compare (List.map fst exec_commits) <> List.sort compare (List.map fst plan_commits) then
+       count "second_planner_call_replays_other_commits");
   (* --- the assumption about the replay sequence (C02 / C14) *)
-  let rok = replay_ok msteps in
+  let rok = replay_ok_fast msteps in
+  if small && rok <> replay_ok msteps then mismatch id "driver-failure: replay_ok_fast and replay_ok disagree";
   if not rok then mismatch id "replay_ok fails: merge flag <-> replayed more than once, at most one replay per parent";
   (* replays of one commit are adjacent, on different branches, consecutively numbered *)
-  (let seenc = Hashtbl.create 16 and seenb = Hashtbl.create 16 and prev = ref (-1) in
+  (let seenc = Hashtbl.create 64 and seenb = Hashtbl.create 64 and prev = ref (-1) in
    List.iter (fun (ci, b) ->
      if ci <> !prev && Hashtbl.mem seenc ci then mismatch id (Printf.sprintf "replays of commit %d are not adjacent in the run" ci);
      if Hashtbl.mem seenb (ci, b) then mismatch id (Printf.sprintf "commit %d replayed twice on branch %d" ci b);
      Hashtbl.replace seenc ci true; Hashtbl.replace seenb (ci, b) true; prev := ci) exec_commits);
-  List.iteri (fun i r -> if r.rindex <> i then mismatch id "DependencyIndex is not the position in the replay sequence") steps;
+  (let bad = ref false in List.iteri (fun i r -> if r.rindex <> i then bad := true) steps;
+   if !bad then mismatch id "DependencyIndex is not the position in the replay sequence");
   if List.exists (fun r -> r.badfd) steps then mismatch id "a modified file without FileDiff data";
-  let merges = List.length (List.filter (fun r -> r.rm) steps) in
-  if merges > 0 then count "pipe_cases_with_merge_replays";
+  if List.exists (fun r -> r.rm) steps then count "pipe_cases_with_merge_replays";
   if List.exists (fun r -> k_of r.rc >= 3) steps then count "pipe_cases_with_octopus";
   if List.exists (fun r -> r.rnp >= 2 && not r.rm) steps then count "pipe_cases_with_multi_parent_single_replay";
   (* --- fine correspondence 1: LinesStatsCalculator on every step *)
-  List.iteri (fun i (r, m) ->
+  (let reported = ref 0 in
+   List.iteri (fun i (r, m) ->
     let model = rows_of_model (step_stats m) in
-    if List.exists (fun (_, s, _, _, _, _) -> s < 0) r.rrows then mismatch id (Printf.sprintf "step %d: statistics for an entry that is not in the tree changes" i)
-    else if model <> r.rrows then
-      mismatch id (Printf.sprintf "step %d (commit %d): line stats impl=%s model=%s" i r.rc (show_rows r.rrows) (show_rows model)))
-    (List.combine steps msteps);
+    if !reported < 5 then begin
+      if List.exists (fun (_, s, _, _, _, _) -> s < 0) r.rrows then
+        (incr reported; mismatch id (Printf.sprintf "step %d: statistics for an entry that is not in the tree changes" i))
+      else if model <> r.rrows then
+        (incr reported; mismatch id (Printf.sprintf "step %d (commit %d): line stats impl=%s model=%s" i r.rc (show_rows r.rrows) (show_rows model)))
+    end)
+    (List.combine steps msteps));
   (* --- fine correspondence 2: DevsResult *)
   let real_devs = List.map (fun t ->
     let langs = List.sort compare (List.map (fun l -> (iarg l 0, iarg l 1, iarg l 2, iarg l 3)) (args (nth (args t) 6))) in
     ((iarg t 0, iarg t 1), (iarg t 2, (iarg t 3, iarg t 4, iarg t 5), langs))) (args (field "devs" obs)) in
   let real_devs = List.sort compare real_devs in
-  let model_devs = List.sort compare (List.map (fun ((t, a), dd) ->
+  let devs_tbl = Hashtbl.create 64 in
+  List.iter (fun (k, v) -> if Hashtbl.mem devs_tbl k then mismatch id "driver-failure: a (tick, developer) key twice in DevsResult" else Hashtbl.replace devs_tbl k v) real_devs;
+  let conv_devs l = List.sort compare (List.map (fun ((t, a), dd) ->
     ((ni t, ni a), (ni dd.dt_commits, (ni dd.dt_stats.added, ni dd.dt_stats.removed, ni dd.dt_stats.changed),
-       List.sort compare (List.map (fun (l, st) -> (ni l, ni st.added, ni st.removed, ni st.changed)) dd.dt_langs)))) (devs_result cec msteps)) in
+       List.sort compare (List.map (fun (l, st) -> (ni l, ni st.added, ni st.removed, ni st.changed)) dd.dt_langs)))) l) in
+  let model_devs = conv_devs (devs_result_fast cec msteps) in
+  if small && model_devs <> conv_devs (devs_result cec msteps) then mismatch id "driver-failure: devs_result_fast and devs_result disagree";
   let show_devs l = String.concat " " (List.map (fun ((t, a), (cm, (x, y, z), langs)) ->
     Printf.sprintf "(tick%d dev%d commits=%d +%d -%d ~%d langs[%s])" t a cm x y z
       (String.concat ";" (List.map (fun (l, x, y, z) -> Printf.sprintf "%d:+%d-%d~%d" l x y z) langs))) l) in
-  if real_devs <> model_devs then mismatch id ("DevsResult impl=" ^ show_devs real_devs ^ " model=" ^ show_devs model_devs);
+  if real_devs <> model_devs then begin
+    if small then mismatch id ("DevsResult impl=" ^ show_devs real_devs ^ " model=" ^ show_devs model_devs)
+    else begin
+      (* long case: show only the entries that differ *)
+      let mt = Hashtbl.create 64 in List.iter (fun (k, v) -> Hashtbl.replace mt k v) model_devs;
+      let d1 = List.filter (fun (k, v) -> (try Hashtbl.find mt k <> v with Not_found -> true)) real_devs in
+      let d2 = List.filter (fun (k, v) -> (try Hashtbl.find devs_tbl k <> v with Not_found -> true)) model_devs in
+      let take l = List.filteri (fun i _ -> i < 4) l in
+      mismatch id (Printf.sprintf "DevsResult differs at %d key(s): impl=%s model=%s" (max (List.length d1) (List.length d2)) (show_devs (take d1)) (show_devs (take d2)))
+    end
+  end;
   (* --- fine correspondence 3: CommitsResult *)
   let real_commits = List.map (fun cm ->
     let files = List.sort compare (List.map (fun f -> (iarg f 0, iarg f 1, iarg f 2, iarg f 3, iarg f 4)) (args (nth (args cm) 3))) in
     (iarg cm 0, iarg cm 1, iarg cm 2, files)) (args (field "commits" obs)) in
-  let model_commits = List.map (fun cs ->
+  let conv_commits l = List.map (fun cs ->
     (ni cs.cs_commit, 1, ni cs.cs_author,
-     List.sort compare (List.map (fun ((_, f), (lang, st)) -> (ni f, ni lang, ni st.added, ni st.removed, ni st.changed)) cs.cs_files))) (commits_run msteps) in
+     List.sort compare (List.map (fun ((_, f), (lang, st)) -> (ni f, ni lang, ni st.added, ni st.removed, ni st.changed)) cs.cs_files))) l in
+  let model_commits = conv_commits (commits_run_fast msteps) in
+  if small && model_commits <> conv_commits (commits_run msteps) then mismatch id "driver-failure: commits_run_fast and commits_run disagree";
+  let show_ids l = let l = List.map (fun (c, _, _, _) -> c) l in
+    if List.length l <= 60 then String.concat " " (List.map string_of_int l)
+    else Printf.sprintf "%d commits" (List.length l) in
   if real_commits <> model_commits then
-    mismatch id (Printf.sprintf "CommitsResult differs: impl lists [%s] model lists [%s]%s"
-                   (String.concat " " (List.map (fun (c, _, _, _) -> string_of_int c) real_commits))
-                   (String.concat " " (List.map (fun (c, _, _, _) -> string_of_int c) model_commits))
+    mismatch id (Printf.sprintf "CommitsResult differs: impl lists [%s] model lists [%s]%s" (show_ids real_commits) (show_ids model_commits)
                    (if List.map (fun (c, _, _, _) -> c) real_commits = List.map (fun (c, _, _, _) -> c) model_commits then " (same commits, different contents)" else ""));
 
   (* ====================== property oracles on the implementation's outputs ====================== *)
-  (* declared truth per replay (commit, parent it was replayed on) *)
+  (* declared truth per replay (commit, parent it was replayed on), aligned with the steps *)
   let truth = List.map (fun o ->
     let a = args o in
     (int_of_sx (nth a 0), int_of_sx (nth a 1),
      List.map (fun f -> { tf = iarg f 0; told = iarg f 1; tob = iarg f 2 <> 0; tnew = iarg f 3; tnb = iarg f 4 <> 0; tins = iarg f 5; tdel = iarg f 6 })
        (List.tl (List.tl a)))) (args (field "truth" obs)) in
+  if List.length truth <> nsteps || List.exists2 (fun (c', _, _) r -> c' <> r.rc) truth steps then failwith "truth and steps are not aligned";
   let commits_analysed = List.sort_uniq compare (List.map fst exec_commits) in
   List.iter (fun ci -> count "commits_analysed"; if k_of ci > 1 then count "commits_replayed_on_several_branches") commits_analysed;
   (* --- (P1) every commit counted at most once, exactly once when it must be *)
-  let differs_all ci = List.for_all (fun (c', _, fs) -> c' <> ci || fs <> []) truth in
-  let differs_some ci = List.exists (fun (c', _, fs) -> c' = ci && fs <> []) truth in
-  let must ci = cec || differs_all ci in
-  let may ci = cec || differs_some ci in
-  let steps_of ci = List.filter (fun r -> r.rc = ci) steps in
-  let keys_of ci = List.sort_uniq compare (List.map (fun r -> (r.rtick, r.rauthor)) (steps_of ci)) in
-  let all_keys = List.sort_uniq compare (List.map fst real_devs @ List.concat_map keys_of commits_analysed) in
-  let commits_at k = try (let (cm, _, _) = List.assoc k real_devs in cm) with Not_found -> 0 in
+  let info : (int, cinfo) Hashtbl.t = Hashtbl.create 64 in
+  List.iter2 (fun r (_, _, fs) ->
+    let ci = (try Hashtbl.find info r.rc with Not_found ->
+                let x = { allne = true; somene = false; ckeys = []; nrep = 0 } in Hashtbl.replace info r.rc x; x) in
+    if fs = [] then ci.allne <- false else ci.somene <- true;
+    ci.nrep <- ci.nrep + 1;
+    let k = (r.rtick, r.rauthor) in
+    if not (List.mem k ci.ckeys) then ci.ckeys <- k :: ci.ckeys) steps truth;
+  let inf ci = Hashtbl.find info ci in
+  let must ci = cec || (inf ci).allne in
+  let may ci = cec || (inf ci).somene in
+  let upper = Hashtbl.create 64 and lower = Hashtbl.create 64 in
+  let bump1 h k = Hashtbl.replace h k (1 + try Hashtbl.find h k with Not_found -> 0) in
+  List.iter (fun ci ->
+    let x = inf ci in
+    if may ci then List.iter (fun k -> bump1 upper k) x.ckeys;
+    (match x.ckeys with [k] when must ci -> bump1 lower k | _ -> ())) commits_analysed;
+  let all_keys = List.sort_uniq compare (List.map fst real_devs @ List.concat_map (fun ci -> (inf ci).ckeys) commits_analysed) in
+  let commits_at k = try (let (cm, _, _) = Hashtbl.find devs_tbl k in cm) with Not_found -> 0 in
   let complaints = ref [] in
   let complain m = complaints := m :: !complaints in
+  (* which commit is it?  (diagnostics for the long cases: the commits of a key whose counter is off) *)
+  let commits_of_key k = List.filter (fun ci -> List.mem k (inf ci).ckeys) commits_analysed in
+  let brief l = String.concat " " (List.map string_of_int (List.filteri (fun i _ -> i < 12) l)) ^ (if List.length l > 12 then " ..." else "") in
   List.iter (fun k ->
-    let upper = List.length (List.filter (fun ci -> may ci && List.mem k (keys_of ci)) commits_analysed) in
-    let lower = List.length (List.filter (fun ci -> must ci && keys_of ci = [k]) commits_analysed) in
+    let up = (try Hashtbl.find upper k with Not_found -> 0) and lo = (try Hashtbl.find lower k with Not_found -> 0) in
     let got = commits_at k in
-    if got > upper then
-      complain (Printf.sprintf "tick %d developer %d: %d commits counted but only %d countable commit(s) were replayed there (a commit is counted more than once, or an empty one although empty commits are off)" (fst k) (snd k) got upper)
-    else if got < lower then
-      complain (Printf.sprintf "tick %d developer %d: %d commits counted but %d commit(s) that change files w.r.t. every parent (or empty commits on) belong there" (fst k) (snd k) got lower)) all_keys;
+    if got > up && List.length !complaints < 5 then
+      complain (Printf.sprintf "tick %d developer %d: %d commits counted but only %d countable commit(s) were replayed there (a commit is counted more than once, or an empty one although empty commits are off); commits replayed there: %s" (fst k) (snd k) got up (brief (commits_of_key k)))
+    else if got < lo && List.length !complaints < 5 then
+      complain (Printf.sprintf "tick %d developer %d: %d commits counted but %d commit(s) that change files w.r.t. every parent (or empty commits on) belong there; commits replayed there: %s" (fst k) (snd k) got lo (brief (commits_of_key k)))) all_keys;
   let total = List.fold_left (fun acc (_, (cm, _, _)) -> acc + cm) 0 real_devs in
   let n_may = List.length (List.filter may commits_analysed) and n_must = List.length (List.filter must commits_analysed) in
   if total > n_may then complain (Printf.sprintf "%d commits counted in total, only %d countable commits analysed" total n_may)
   else if total < n_must then complain (Printf.sprintf "%d commits counted in total, %d commits must be counted" total n_must);
-  (* the judgement itself is the extracted once_ok (C12_once_oracle), on the replay sequence whose change
-     lists are the DECLARED differences between the commit and the commit its branch held before *)
-  if List.length truth <> List.length msteps || List.exists2 (fun (c', _, _) m -> c' <> ni m.s_commit) truth msteps then failwith "truth and steps are not aligned";
+  (* the judgement itself is the extracted once_ok_fast (= once_ok, C12_fast_once_oracle; once_ok accepts the model:
+     C12_once_oracle), on the replay sequence whose change lists are the DECLARED differences between the commit
+     and the commit its branch held before *)
   let tsteps = List.map2 (fun m (_, _, fs) -> { m with s_changes = List.map (fun _ -> ChInsert (N0, N0, None)) fs }) msteps truth in
   let table = List.map (fun ((t, a), (cm, _, _)) -> ((n t, n a), n cm)) real_devs in
-  let ok = once_ok cec tsteps table in
+  let keys = List.map (fun (t, a) -> (n t, n a)) all_keys in
+  if not (same_keys keys tsteps table) then failwith "the key list handed to once_ok_fast is not the key set of once_ok";
+  let ok = once_ok_fast cec tsteps table keys in
+  if small && ok <> once_ok cec tsteps table then mismatch id "driver-failure: once_ok_fast and once_ok disagree";
   (match ok, List.rev !complaints with
    | false, m :: _ -> propfail id m
    | false, [] -> propfail id "the Commits counters violate once_ok (every commit at most once, exactly once when it must be counted)"
@@ -226,12 +284,22 @@ let pipe id c =
   if n_must < n_may then count "pipe_cases_with_optional_commits";
   List.iter (fun ci -> if k_of ci > 1 then (if must ci then count "merges_must_count" else if may ci then count "merges_may_count" else count "merges_empty")
                        else if not (may ci) then count "empty_single_commits") commits_analysed;
+  if List.exists (fun ci -> List.length (inf ci).ckeys > 1) commits_analysed then count "pipe_cases_with_a_commit_in_two_ticks";
   (* --- (P2) the listing = commits replayed on one branch, each once *)
   let listed = List.sort compare (List.map (fun (c, _, _, _) -> c) real_commits) in
-  let single = List.filter (fun ci -> single_branch msteps (n ci)) commits_analysed in
-  if listed <> single then
-    propfail id (Printf.sprintf "CommitsResult lists [%s] but the commits replayed on a single branch are [%s]"
-                   (String.concat " " (List.map string_of_int listed)) (String.concat " " (List.map string_of_int single)));
+  let smap = steps_map msteps in
+  let single = List.filter (fun ci -> single_fast smap (n ci)) commits_analysed in
+  if small && single <> List.filter (fun ci -> single_branch msteps (n ci)) commits_analysed then mismatch id "driver-failure: single_fast and single_branch disagree";
+  if listed <> single then begin
+    let diff a b = let h = Hashtbl.create 64 in List.iter (fun x -> Hashtbl.replace h x true) b; List.filter (fun x -> not (Hashtbl.mem h x)) a in
+    let rec dups = function a :: (b :: _ as r) -> if a = b then a :: dups r else dups r | _ -> [] in
+    let ids l = String.concat " " (List.map string_of_int l) in
+    if List.length listed <= 60 && List.length single <= 60 then
+      propfail id (Printf.sprintf "CommitsResult lists [%s] but the commits replayed on a single branch are [%s]" (ids listed) (ids single))
+    else
+      propfail id (Printf.sprintf "CommitsResult lists %d commits, %d commits are replayed on a single branch: listed although replayed on several branches [%s], listed twice [%s], missing [%s]"
+                     (List.length listed) (List.length single) (brief (diff listed single)) (brief (dups listed)) (brief (diff single listed)))
+  end;
   (* --- (P3) language sums, judged by the extracted langs_sum_ok *)
   List.iter (fun ((t, a), (cm, (x, y, z), langs)) ->
     let dd = { dt_commits = n cm; dt_stats = mk_stats x y z; dt_langs = List.map (fun (l, x, y, z) -> (n l, mk_stats x y z)) langs } in
@@ -241,12 +309,15 @@ let pipe id c =
       propfail id (Printf.sprintf "tick %d developer %d: languages sum to +%d -%d ~%d but the totals are +%d -%d ~%d" t a sx sy sz x y z)
     end) real_devs;
   (* --- (P4) conservation for every non-merge commit, at three observation points *)
-  let exp_ins = Hashtbl.create 16 and exp_del = Hashtbl.create 16 in
+  let exp_ins = Hashtbl.create 64 and exp_del = Hashtbl.create 64 in
   let bump h k v = Hashtbl.replace h k (v + try Hashtbl.find h k with Not_found -> 0) in
-  List.iter (fun r ->
+  let listing = Hashtbl.create 64 in
+  List.iter (fun (c', _, _, files) -> Hashtbl.add listing c' files) real_commits;
+  let nfail = ref 0 in
+  let propfail id m = incr nfail; if !nfail <= 8 then propfail id m in
+  List.iter2 (fun r (_, _, tfs) ->
     if k_of r.rc = 1 then begin
       count "nonmerge_commits";
-      let tfs = (match List.filter (fun (c', _, _) -> c' = r.rc) truth with [(_, _, fs)] -> fs | _ -> failwith "truth of a single replay") in
       (* (a) the diff the pipeline computed against the declared contents of commit and parent *)
       let rows_impl = r.rrows in
       let find side f = List.filter (fun (f', s', _, _, _, _) -> f' = f && s' = side) rows_impl in
@@ -280,7 +351,9 @@ let pipe id c =
             let ds = List.concat_map (fun ch -> match ch with ChModify (f, _, ds) when ni f = t.tf -> [ds] | _ -> []) r.rchanges in
             match ds with
             | [ds] when ni (inserted ds) = t.tins && ni (deleted ds) = t.tdel ->
-                count "modified_files_minimal_diff"; conserve "modified" 1 t.tins t.tdel
+                count "modified_files_minimal_diff";
+                if t.tins = 0 && t.tdel = 0 then count "files_changed_in_mode_only";
+                conserve "modified" 1 t.tins t.tdel
             | [ds] -> count "modified_files_nonminimal_diff";
                 if ni (inserted ds) - ni (deleted ds) <> t.tnew - t.told then
                   propfail id (Printf.sprintf "commit %d file %d: the diff script grows the file by %d lines, the declared contents by %d" r.rc t.tf
@@ -312,8 +385,8 @@ let pipe id c =
       end;
       List.iter (fun ch -> match ch with ChModify (_, _, ds) -> if not (canonical ds) then count "pipeline_scripts_not_canonical" else count "pipeline_scripts_canonical" | _ -> ()) r.rchanges;
       (* (b) the same commit in the listing *)
-      (match List.filter (fun (c', _, _, _) -> c' = r.rc) real_commits with
-       | [(_, _, _, files)] ->
+      (match Hashtbl.find_all listing r.rc with
+       | [files] ->
            let a = List.fold_left (fun acc (_, _, a, _, c) -> acc + a + c) 0 files
            and d = List.fold_left (fun acc (_, _, _, rr, c) -> acc + rr + c) 0 files in
            if a <> !inserted_rec || d <> !deleted_rec then
@@ -321,9 +394,9 @@ let pipe id c =
        | _ -> ());
       (* (c) what the developer statistics must contain for it *)
       bump exp_ins (r.rtick, r.rauthor) !inserted_rec; bump exp_del (r.rtick, r.rauthor) !deleted_rec
-    end) steps;
+    end) steps truth;
   List.iter (fun k ->
-    let (a, rr, ch) = try (let (_, s, _) = List.assoc k real_devs in s) with Not_found -> (0, 0, 0) in
+    let (a, rr, ch) = try (let (_, s, _) = Hashtbl.find devs_tbl k in s) with Not_found -> (0, 0, 0) in
     let ei = (try Hashtbl.find exp_ins k with Not_found -> 0) and ed = (try Hashtbl.find exp_del k with Not_found -> 0) in
     if a + ch <> ei || rr + ch <> ed then
       propfail id (Printf.sprintf "tick %d developer %d: added+changed=%d removed+changed=%d but the non-merge commits there insert %d and delete %d lines"
@@ -333,5 +406,5 @@ let () =
   iter_cases (fun id c ->
     match atom (nth (args (field "mode" c)) 0) with
     | "direct" -> direct id c
-    | "pipe" -> pipe id c
+    | "pipe" | "scale" -> pipe id c
     | m -> failwith ("unknown mode " ^ m))
